@@ -130,7 +130,9 @@ def layout(rng, in_domain):
         "p_trailing": rng.choice([0, 0.3, 0.6]), "p_trailing_ws": rng.choice([0, 0.3]), "ws_blank": rng.random() < 0.5,
         "comment_cols": "same" if in_domain else rng.choice(["same", "any"]), "trailing_on_headers": (not in_domain) and rng.random() < 0.7,
         "extras_before_continuation": (not in_domain) and rng.random() < 0.5,
-        "stmt": (lambda t: f"mon.write( {t} )") if spaced else (lambda t: f"mon.write({t})"),
+        "stmt": rng.choice([(lambda t: f"mon.write( {t} )"), (lambda t: f"mon.write({t})"), (lambda t: f"mon.write({t})"),
+                            (lambda t: f"mon.write(\"it's {t}\")"), (lambda t: f"mon.write('say \"{t}\" # not a comment')"),
+                            (lambda t: f"mon.write(\"#{t} \\\" q\")")]) if spaced or rng.random() < 0.4 else (lambda t: f"mon.write({t})"),
     }
 
 
@@ -224,6 +226,13 @@ def run(ctx: Ctx) -> int:
             continue
         for in_domain in (True, True, False):
             lay = layout(rng, in_domain)
+            canon_text, _ = render(pre, loop, dict(CANON, rng=rng, stmt=lay["stmt"]))
+            canon_src = "\n".join(PRELUDE + canon_text) + "\n"
+            try:
+                canon_out = E.emit(P.parse(canon_src))
+            except Exception as e:  # noqa: BLE001
+                ctx.fail("layout:canonical-rejected", f"canonical layout rejected: {e!r}", {"script": canon_src})
+                continue
             text, model_lines = render(pre, loop, lay)
             src = "\n".join(PRELUDE + text) + "\n"
             req = "layout|prog|" + " ".join(["0:s:F:1", "0:s:F:2"][:0] + model_lines)
